@@ -256,7 +256,7 @@ def slice_vs(vs):
     if k == "b":
         return ["ws", False, len(vs[1]), vs[1]]
     if k == "t":
-        return ["wo", "unicode", [["ws", False, len(vs[1]), vs[1]]]]     # ASCII only in wire trees
+        return ["wo", "unicode", [["ws", False, len(to_py(vs).encode("utf-8")), vs[1]]]]   # payload = code points
     if k == "B":
         return ["wo", "boolean", [["wi", "INT", 1 if vs[1] else 0, 1 if vs[1] else 0]]]
     if k == "N":
@@ -292,7 +292,7 @@ class Enc:
     def __init__(self):
         self.out = []
         self.opens = 0          # openCount for the next OPEN token
-        self.objects = 0        # receiver's objectCounter for the next OPEN token
+        self.objects = 0        # receiver's objectCounter for the next OPEN token (set by the caller)
 
     def tok(self, tb, n, body=b""):
         self.out.append(hdr(n) + tb + body)
@@ -317,7 +317,8 @@ class Enc:
         w = int_ws(n)
         self.wire(w)
 
-    def wire(self, ws, refs=None):
+    def wire(self, ws, refs=None, text=False):
+        """emit one wire tree; returns the receiver-side object id of its OPEN token (None for plain tokens)"""
         k = ws[0]
         if k == "wi":
             tb, size, v = TB[ws[1]], ws[2], ws[3]
@@ -332,16 +333,19 @@ class Enc:
             if ws[1]:
                 self.tok(tokens.VOCAB, ws[2])
             else:
-                self.tok(tokens.STRING, ws[2], bytes(ws[3]))
+                body = "".join(chr(c) for c in ws[3]).encode("utf-8") if text else bytes(ws[3])
+                assert len(body) == ws[2], (ws, body)
+                self.tok(tokens.STRING, ws[2], body)
         elif k == "wo":
-            oc, _ = self.open(ws[1].encode())
+            oc, objid = self.open(ws[1].encode())
             for x in ws[2]:
-                self.wire(x, refs)
+                self.wire(x, refs, text=(ws[1] == "unicode"))
             self.close(oc)
+            return objid
         elif k == "wr":
-            # OPEN reference <objid> CLOSE, objid = an earlier object of this stream registered in refs
+            # OPEN reference <objid> CLOSE, objid = the earlier positional argument number ws[2] of this call
             oc, _ = self.open(b"reference")
-            self.tok(tokens.INT, refs[repr(ws[1])])
+            self.tok(tokens.INT, refs[ws[2]])
             self.close(oc)
         else:
             raise ValueError(ws)
@@ -419,7 +423,16 @@ class World:
         cls = implementer(self.iface)(type("T", (Target,), {}))
         self.target = cls(["m"], {"m": result})
         self.tb, self.cb = E.broker_pair()
+        self.recv_errors = []
+        for b in (self.tb, self.cb):
+            b.reportReceiveError = self._spy(b.reportReceiveError)
         self.rr, self.clid = export(self.tb, self.cb, self.target, self.iface.__remote_name__ if shared_iface else None)
+
+    def _spy(self, orig):
+        def report(f):
+            self.recv_errors.append("%s: %s" % (f.type.__name__, str(f.value)[:200]))
+            return orig(f)
+        return report
 
     def call(self, args, kwargs, **extra):
         res = []
@@ -447,6 +460,7 @@ class World:
         """deliver a hand-built `call` sequence to the target broker; body_fn(enc) emits the `arguments` sequence.
         Returns the raw bytes fed."""
         enc = Enc()
+        enc.objects = self.tb.objectCounter
         oc, _ = enc.open(b"call")
         enc.tok(tokens.INT, reqid)
         enc.tok(tokens.INT, self.clid)
@@ -475,6 +489,7 @@ def answer_trial(resp_cs, ws, refs_first=None):
     E.turn()
     w.tb.transport.write = real_write
     enc = Enc()
+    enc.objects = w.cb.objectCounter
     oc, _ = enc.open(b"answer")
     enc.tok(tokens.INT, 1)
     enc.wire(ws)
@@ -498,8 +513,8 @@ def call_trial(argnames, cons, pos_ws, kw_ws, numargs=None, prelude=None):
     def body(enc):
         oc, _ = enc.open(b"arguments")
         enc.tok(tokens.INT, len(pos_ws) if numargs is None else numargs)
-        for x in pos_ws:
-            enc.wire(x, body.refs)
+        for i, x in enumerate(pos_ws):
+            body.refs[i] = enc.wire(x, body.refs)
         for name, x in kw_ws:
             enc.string(name.encode())
             enc.wire(x, body.refs)
